@@ -301,6 +301,10 @@ def run_outreg(cases, res):
                 x.config.op_out = out
                 z = x + y if c['op'] == '+' else (x - y if c['op'] == '-' else x * y)
             got = (lib.codes_of(z)[-1], z is out, (bool(z.signed), int(z.n_word), int(z.n_frac)))      # (cumsum: the last prefix sum = the sum)
+            if c['op'] in ('sum', 'dot', 'prod', 'cumsum'):
+                # the same reduction into its own (optimal) word, which may exceed 64 bits: compared with the exact result and with the model
+                zo = {'sum': lambda: np.sum(xa), 'dot': lambda: np.dot(xa, xa), 'prod': lambda: np.prod(xa), 'cumsum': lambda: np.cumsum(xa)}[c['op']]()
+                c['_opt'] = ((bool(zo.signed), int(zo.n_word), int(zo.n_frac)), lib.codes_of(zo), lib.status3(zo)[:2])
         except Exception as e:
             res.fail(c, 'C03: arithmetic into a wide wrap register raised %s' % lib.exc_name(e), got=str(e)[:200]); continue
         xv = Fraction(c['cx'], 1) / (1 << c['x'][2]); yv = Fraction(c['cy'], 1) / (1 << c['y'][2])
@@ -319,7 +323,7 @@ def run_outreg(cases, res):
         pend.append((c, got, lib.status3(z))); reqs.append([4] + e_fmt(*c['out']) + [RMODES.index(c['r']), 1] + e_list(exs, e_dy))
         # the arithmetic model (raw method into the imposed format: Python integers, exact rationals for a negative rescale)
         reqs.append([41, {'+': 0, '-': 1, '*': 2}.get(c['op'], 0)] + e_fmt(*c['x']) + e_list([c['cx']]) + e_fmt(*c['y']) + e_list([c['cy']]) + e_fmt(*c['out']) + [RMODES.index(c['r']), 1])
-    outs = model_call(reqs)
+    outs = model_call(reqs); wide_pend = []; wide_reqs = []
     for i, (c, got, st3) in enumerate(pend):
         o = outs[2 * i]; mo = S.read_model_store(outs[2 * i + 1])
         rd = Reader(o); want = rd.lst(rd.z)[-1]; wflags = (rd.b(), rd.b())
@@ -329,10 +333,28 @@ def run_outreg(cases, res):
             res.fail(c, 'C03: arithmetic stored through out= into a wrap register: the overflow / underflow flags are not those of the exact result (an intermediate wrapped)', expected=wflags, got=st3[:2]); continue
         if got != (want, True, tuple(c['out'])):
             res.fail(c, 'C03: arithmetic stored through out= into a wrap register of 64 bits or more is not the residue of the exact result', expected=(want, True, tuple(c['out'])), got=got); continue
-        if c['op'] not in '+-*': continue           # (reductions into a register: compared with the Spec only)
+        if c['op'] not in '+-*':           # (reductions into a register: compared with the Spec only; into the optimal word: exact result and model)
+            if '_opt' in c:
+                zf, zc, zs = c.pop('_opt'); codes = [c['cx'], c['cy']] + c.get('more', [])
+                kind = {'sum': 0, 'cumsum': 1, 'prod': 2}.get(c['op'])
+                ex_codes = {'sum': [sum(codes)], 'cumsum': [sum(codes[:k + 1]) for k in range(len(codes))], 'dot': [sum(v * v for v in codes)]}.get(c['op'])
+                if ex_codes is None:
+                    p_ = 1
+                    for v in codes: p_ *= v
+                    ex_codes = [p_]
+                if zc != ex_codes or zs != (False, False):
+                    res.fail(c, 'C03: %s with optimal sizing is not the exact result when its word exceeds the machine word (an intermediate wrapped)' % c['op'], expected=ex_codes, got=(zf, zc, zs)); continue
+                wide_pend.append((c, zf, zc))
+                wide_reqs.append(([110, kind] + e_fmt(*c['x']) + [len(codes)] + e_list(codes)) if kind is not None else ([111] + e_fmt(*c['x']) + e_fmt(*c['x']) + e_list(codes) + e_list(codes)))
+            continue
         if mo['kind'] != 'ok' or mo['codes'] != [got[0]] or mo['status'][:2] != st3[:2]:
             res.fail(c, 'model Arith.arith_raw disagrees with the implementation although the Spec agrees (wide register)', expected=str(mo)[:200], got=(got[0], st3))
             res.failures[-1]['no_input'] = True
+    for (c, zf, zc), mout in zip(wide_pend, model_call(wide_reqs)):
+        kind_, rd = lib.outcome(mout)
+        if kind_ == 'ok': mf = (rd.b(), rd.z(), rd.z()); mc = rd.lst(rd.z)
+        if kind_ != 'ok' or mf != zf or mc != zc:
+            res.fail(c, 'model Reduce disagrees with the implementation although the exact oracle agrees (%s, optimal word)' % c['op'], expected=str(kind_), got=(zf, zc[:4])); res.failures[-1]['no_input'] = True
 
 def shard(shard, nshards, rng, tier, extra):
     res = Result()
